@@ -1,7 +1,7 @@
 #!/bin/sh
 # tools/confirm_mutant2.sh <property-id> <n> : round-2 seeded change n of /tmp/w2-<id>/out (worktree at the
 # current /repo HEAD: hooks + fixes).  Keeps it as /verif/seeded/<id>-r2-<n>/ when confirmed.
-ID=$1; N=$2; WT=/tmp/w2-$ID; OUT=$WT/out
+ID=$1; N=$2; R=${R:-2}; WT=/tmp/w$R-$ID; OUT=$WT/out
 PY=/venv/bin/python
 BASE=/verif/build/baseline-pass-head.txt
 cd $WT || exit 2
@@ -10,30 +10,30 @@ if [ ! -s $BASE ]; then
   $PY -m pytest -q -rA -p no:cacheprovider --timeout=900 --continue-on-collection-errors --ignore=out 2>&1 | grep '^PASSED' | sort > $BASE.tmp; mv $BASE.tmp $BASE
 fi
 PYTHONPATH=$WT/src $PY $OUT/demo$N.py > /tmp/confirm2-$ID-$N.clean.log 2>&1; rc_clean=$?
-git apply --whitespace=nowarn $OUT/mut$N.diff || { echo "$ID-r2-$N: patch does not apply"; exit 1; }
+git apply --whitespace=nowarn $OUT/mut$N.diff || { echo "$ID-r$R-$N: patch does not apply"; exit 1; }
 PYTHONPATH=$WT/src $PY $OUT/demo$N.py > /tmp/confirm2-$ID-$N.mut.log 2>&1; rc_mut=$?
 $PY -m pytest -q -rA -p no:cacheprovider --timeout=900 --continue-on-collection-errors --ignore=out 2>&1 | grep '^PASSED' | sort > /tmp/confirm2-$ID-$N.pass.txt
 missing=$(comm -23 $BASE /tmp/confirm2-$ID-$N.pass.txt | wc -l)
 git checkout -q -- src
-echo "$ID-r2-$N: demo clean rc=$rc_clean, demo mutated rc=$rc_mut, baseline tests lost=$missing (of $(wc -l < $BASE))"
+echo "$ID-r$R-$N: demo clean rc=$rc_clean, demo mutated rc=$rc_mut, baseline tests lost=$missing (of $(wc -l < $BASE))"
 if [ $rc_clean -eq 0 ] && [ $rc_mut -ne 0 ] && [ $missing -eq 0 ]; then
-  D=/verif/seeded/$ID-r2-$N; mkdir -p $D
+  D=/verif/seeded/$ID-r$R-$N; mkdir -p $D
   cp $OUT/mut$N.diff $D/patch.diff; cp $OUT/demo$N.py $D/demo.py
-  $PY - "$ID" "$N" "$OUT/notes.json" "$D/meta.json" <<'PYEOF'
+  $PY - "$ID" "$N" "$OUT/notes.json" "$D/meta.json" "$R" <<'PYEOF'
 import json, sys
 pid, n, notes, dst = sys.argv[1], int(sys.argv[2]), sys.argv[3], sys.argv[4]
 try:
     note = [x for x in json.load(open(notes)) if int(x.get('mutation', -1)) == n][0]
 except Exception:
     note = {}
-json.dump({"property": pid, "mutation": n, "round": 2, "summary": note.get('summary', ''), "needs": note.get('needs', ''),
+json.dump({"property": pid, "mutation": n, "round": int(sys.argv[5]), "summary": note.get('summary', ''), "needs": note.get('needs', ''),
            "files": note.get('files', []),
            "confirmed": {"demo_exit_unchanged_tree": 0, "demo_exit_with_change": "non-zero", "baseline_tests_lost": 0,
-                         "how": "tools/confirm_mutant2.sh in the scratch worktree /tmp/w2-%s (current /repo HEAD): demo run without and with the patch, full pytest run compared with the 108 passing ids of that tree" % pid},
+                         "how": "tools/confirm_mutant2.sh in the scratch worktree /tmp/w<round>-%s (current /repo HEAD): demo run without and with the patch, full pytest run compared with the 108 passing ids of that tree" % pid},
            "source": "independent sub-agent given only the property text, summaries of the round-1 changes to avoid, and a scratch worktree"}, open(dst, 'w'), indent=1)
 PYEOF
-  echo "$ID-r2-$N: KEPT in $D"
+  echo "$ID-r$R-$N: KEPT in $D"
 else
-  echo "$ID-r2-$N: NOT confirmed"
+  echo "$ID-r$R-$N: NOT confirmed"
 fi
 rm -f /tmp/confirm2-$ID-$N.*
